@@ -197,6 +197,7 @@ class Interp:
         self.loopspecs: dict = {}
         self.call_log: list[str] = []
         self.old_env: Optional[dict] = None
+        self.unbound_bases: set = set()
         self.inlined: set[str] = set()
         self.used_contracts: set[str] = set()
         self.used_models: set[str] = set()
@@ -456,6 +457,10 @@ class Interp:
                 o = self.ctx.fresh(f"{cname}.result.s", z3.StringSort())
                 self.ctx.assume(o == sym.zstr(res))
                 res.origin = o
+        if self.unbound_bases:
+            for name, clause in c.get("ensures", {}).items():
+                self._bind_plists(c, clause, loc, old, res)
+            self.unbound_bases.clear()
         for name, clause in c.get("ensures", {}).items():
             t = eval_clause(self, c, clause, loc, old, res)
             self.ctx.assume(_as_term(t))
@@ -463,6 +468,70 @@ class Interp:
         if not self.ctx.feasible():
             raise Abort("callee postcondition infeasible")
         return res
+
+    def _bind_plists(self, c, clause, loc, old, res):
+        """An equation `L == E` in a positive conjunctive position of a postcondition (conjunct, consequent of an implication or
+        branch of a conditional whose test is decided by case split) where L is an object list just havocked by `modifies`
+        and E an object list over the pre-state defines L: the fresh prefix symbol of L is unconstrained, so L := E loses no
+        post-state.  (Object lists hold heap objects, which have no term representation an equation could be stated over.)"""
+        from .spec import parse_clause, _SpecFunc
+
+        l = dict(loc)
+        l["result"] = res
+        env = Env(c["gl"], l)
+        env.func = _SpecFunc(c)
+        saved = self.old_env
+        self.old_env = old
+        self.spec_mode += 1
+
+        def decided(test):
+            t = sym.truth_term(self.ctx, self.eval(test, env))
+            return t if isinstance(t, bool) else self.ctx.branch(t, "bind-guard")
+
+        def go(n):
+            if isinstance(n, ast.BoolOp) and isinstance(n.op, ast.And):
+                for v in n.values:
+                    if (isinstance(v, ast.Compare) and len(v.ops) == 1 and isinstance(v.ops[0], (ast.Is, ast.IsNot))
+                            and isinstance(v.comparators[0], ast.Constant) and v.comparators[0].value is None):
+                        if not decided(v):
+                            return  # the conjunction is false on this path
+                    else:
+                        go(v)
+            elif isinstance(n, ast.IfExp):
+                go(n.body if decided(n.test) else n.orelse)
+            elif isinstance(n, ast.Call) and isinstance(n.func, ast.Name) and n.func.id == "implies" and len(n.args) == 2:
+                if decided(n.args[0]):
+                    go(n.args[1])
+            elif (isinstance(n, ast.Compare) and len(n.ops) == 1 and isinstance(n.ops[0], ast.Is) and isinstance(n.left, ast.Call)
+                  and isinstance(n.left.func, ast.Name) and n.left.func.id == "plist_last" and len(n.left.args) == 1):
+                # `plist_last(L) is E` for a havocked L: L is some unknown prefix followed by E
+                a, b = self.eval(n.left.args[0], env), self.eval(n.comparators[0], env)
+                b = sym.force(self.ctx, b) if isinstance(b, sym.SOpt) else b
+                if isinstance(a, sym.PList) and a.base is not None and a.base.get_id() in self.unbound_bases and not a.tail and isinstance(b, sym.Rec):
+                    self.unbound_bases.discard(a.base.get_id())
+                    a.tail = [b]
+            elif isinstance(n, ast.Compare) and len(n.ops) == 1 and isinstance(n.ops[0], ast.Eq):
+                if not any(isinstance(x, ast.Call) and isinstance(x.func, ast.Name) and x.func.id == "plist_append" for x in ast.walk(n)):
+                    return  # only `L == plist_append(old(L), e)` equations define a list
+                a, b = self.eval(n.left, env), self.eval(n.comparators[0], env)
+                if isinstance(a, sym.PList) and isinstance(b, sym.PList) and a is not b:
+                    ua = a.base is not None and a.base.get_id() in self.unbound_bases and not a.tail
+                    ub = b.base is not None and b.base.get_id() in self.unbound_bases and not b.tail
+                    if ua and not ub:
+                        self.unbound_bases.discard(a.base.get_id())
+                        a.base, a.tail = b.base, list(b.tail)
+                    elif ub and not ua:
+                        self.unbound_bases.discard(b.base.get_id())
+                        b.base, b.tail = a.base, list(a.tail)
+
+        try:
+            go(parse_clause(clause))
+        except (PyRaise, SpecError) as e:
+            if os.environ.get("PYVC_DEBUG"):
+                print(f"[bind] {clause[:60]}: {e}", file=sys.stderr)
+        finally:
+            self.spec_mode -= 1
+            self.old_env = saved
 
     # ---------------------------------------------------------------- statements
     def exec_block(self, stmts, env: Env):
@@ -566,16 +635,23 @@ class Interp:
 
     def store_subscript(self, obj, idx, v):
         idx = mk(idx)
+        if isinstance(idx, SOpt):
+            idx = sym.force(self.ctx, idx)
         if isinstance(obj, dict):
             if is_concrete(idx):
                 obj[idx] = v
                 return
             # symbolic key into python dict: only when it must equal an existing key
             for k in obj:
-                if self.ctx.branch(_as_term(sym.eq_term(self.ctx, idx, k)), f"key=={k!r}"):
+                kk = k.v if isinstance(k, _SymKey) else k
+                t = sym.eq_term(self.ctx, idx, kk)
+                if t is False:
+                    continue
+                if t is True or self.ctx.branch(_as_term(t), "key equals an existing key"):
                     obj[k] = v
                     return
-            if is_concrete(list(obj.keys())) and sym.is_strlike(idx):
+            if sym.is_strlike(idx):
+                # a new key, distinct from every existing one on this path (insertion order is kept by the Python dict)
                 obj[_SymKey(idx)] = v
                 return
             raise Unsupported("store with symbolic key into dict")
@@ -1004,6 +1080,20 @@ class Interp:
             left = right
         return mk(SV(acc, "bool")) if not isinstance(acc, bool) else acc
 
+    def _user_eq(self, a, b):
+        """`a == b` for an object whose class defines __eq__ in the repository source (e.g. Note: body and payload only):
+        the method's real body decides, not the structural dataclass equality.  `!=` is its negation (Python's default __ne__)."""
+        a2 = sym.force(self.ctx, a) if isinstance(a, SOpt) else a
+        if not (isinstance(a2, Rec) and a2.cls is not None and is_zorg_module(getattr(a2.cls, "__module__", None))):
+            return None
+        for k in a2.cls.__mro__:
+            if "__eq__" in vars(k):
+                if not is_zorg_module(getattr(k, "__module__", None)) or SOURCES.find(k.__module__, f"{k.__qualname__}.__eq__") is None:
+                    return None  # generated (dataclass) or inherited from object
+                f = self.make_ifunc(k.__module__, f"{k.__qualname__}.__eq__")
+                return self.call(f, [a2, b], {}, None, None)
+        return None
+
     def compare(self, op, a, b):
         ctx = self.ctx
         r = self.models.compare(self, op, a, b)
@@ -1016,9 +1106,18 @@ class Interp:
             elif isinstance(a2, bool) or isinstance(b2, bool) or isinstance(a2, (SV, SEnum, enum.Enum)) or isinstance(b2, (SEnum, enum.Enum)):
                 t = sym.eq_term(ctx, a2, b2)
             else:
+                # identity of heap objects: an Optional operand is resolved first (None is identical to nothing but None)
+                if isinstance(a2, SOpt):
+                    a2 = sym.force(ctx, a2)
+                if isinstance(b2, SOpt):
+                    b2 = sym.force(ctx, b2)
                 t = a2 is b2
             return _not(t) if op == "IsNot" else _wrapb(t)
         if op in ("Eq", "NotEq"):
+            ueq = self._user_eq(a, b)
+            if ueq is not None:
+                t = sym.truth_term(ctx, ueq)
+                return _not(t) if op == "NotEq" else _wrapb(t)
             t = sym.eq_term(ctx, a, b)
             return _not(t) if op == "NotEq" else _wrapb(t)
         if op in ("Lt", "LtE", "Gt", "GtE"):
@@ -1204,7 +1303,8 @@ class Interp:
         def emit(ce):
             k = self.eval(e.key, ce)
             if not is_concrete(k):
-                raise Unsupported("dict comprehension with symbolic key")
+                self.store_subscript(out, k, self.eval(e.value, ce))  # case split: equal to an earlier key (overwrites) or new
+                return
             out[k] = self.eval(e.value, ce)
 
         self._comp(e.generators, env, emit)
